@@ -751,6 +751,89 @@ func rejectedPackage() *pkgSpec {
 	return p
 }
 
+// ---------------------------------------------------------------- directive sequences
+
+// seqPackages: several derive directives of one typeclass in one package (one gombok run)
+// whose targets share a nested type, over {plain, recursive=true} in every source order. What
+// a directive gets must not depend on the directives processed before it: a recursive=true
+// Clone must be deep whatever came first, and the emitted function must be the same text as
+// when the directive is alone in its package (checked for every recursive=true target and for
+// every plain target that no recursive=true directive of the same nested type precedes; a plain
+// target that follows one legitimately finds the generated instance in the working package).
+// The plain Clone targets keep the key form of the known norec finding.
+func seqPackages(thorough bool) []*pkgSpec {
+	type kindSpec struct {
+		label  string
+		shared [][2]string // declarations of the shared nested types
+		fields []string    // the field list of the 1st, 2nd, 3rd holder
+		sfx    string
+	}
+	kindsS := []kindSpec{
+		{"shared-struct-with-slice", [][2]string{{"InS", "type InS struct {\n\tX int\n\tY []int\n}"}},
+			[]string{"n int\n\ta InS", "a []InS\n\ts string", "p *InS"}, "S"},
+		{"shared-named-slice", [][2]string{{"Bag", "type Bag []int"}},
+			[]string{"n int\n\ta Bag", "a fp.Option[Bag]\n\ts string", "a map[string]Bag"}, "B"},
+		{"shared-generic-struct", [][2]string{{"Wr", "type Wr[T any] struct {\n\tV []T\n\tN int\n}"}},
+			[]string{"a Wr[int]", "a []Wr[int]\n\tn int", "a *Wr[int]"}, "G"},
+		{"shared-type-of-another-package", nil,
+			[]string{"n int\n\ta tp.Pub", "a []tp.Pub", "a *tp.Pub"}, "T"},
+	}
+	ordinal := []string{"1st", "2nd", "3rd"}
+	orders := []string{"PP", "PR", "RP", "RR"}
+	if thorough {
+		orders = append(orders, "PPR", "PRP", "RPP", "PRR", "RPR", "RRP")
+	}
+	var out []*pkgSpec
+	for _, order := range orders {
+		p := &pkgSpec{Name: "sequence/" + order}
+		for _, k := range kindsS {
+			for _, d := range k.shared {
+				p.addType(d[0], d[1])
+			}
+			seenR := false
+			for i, c := range order {
+				rec := c == 'R'
+				name := fmt.Sprintf("Q%s%d", k.sfx, i+1)
+				decl := fmt.Sprintf("type %s struct {\n\t%s\n}", name, k.fields[i])
+				family, label := "norec", fmt.Sprintf("seq-%s/%s/%s", order, k.label, ordinal[i])
+				if rec {
+					family, label = "seq", fmt.Sprintf("%s/%s/%s(recursive=true)", order, k.label, ordinal[i])
+				}
+				soloOK := rec || !seenR
+				p.addTyped(family, label, typeSpec{name: name, decl: decl, tcs: only(Clone), kinds: []string{"directive-sequence"}}, allTC(), func(t *target) {
+					t.RecTrue = rec
+					t.Solo = soloOK
+					t.Counts = append(t.Counts, "directive-sequence/"+order, "directive-sequence/"+k.label)
+				})
+				seenR = seenR || rec
+			}
+		}
+		// the other typeclasses: a plain derive is accepted where the nested type has an
+		// instance of its own (an explicit directive); two orders are enough
+		if order == "PR" || order == "RP" {
+			for i, c := range order {
+				rec := c == 'R'
+				name := fmt.Sprintf("QO%d", i+1)
+				fields := []string{"n int\n\ta MyInt\n\tb Inner", "a []Inner\n\tm MyInt"}[i]
+				label := fmt.Sprintf("%s/nested-with-own-instance/%s", order, ordinal[i])
+				if rec {
+					label += "(recursive=true)"
+				}
+				p.addType("MyInt", auxDecl["MyInt"])
+				p.addType(name, fmt.Sprintf("type %s struct {\n\t%s\n}", name, fields))
+				for tc := Eq; tc < nTC; tc++ {
+					t := &target{ID: fmt.Sprintf("%s/seq/%s", tcs[tc].Name, label), TC: tc, Type: name, InstName: tcs[tc].Name + name, RecTrue: rec, Solo: rec,
+						Counts: []string{"family/seq", "directive-sequence/" + order, "directive-sequence/nested-with-own-instance"}}
+					t.Deps = append(t.Deps, p.addAux("Inner", tc)...)
+					p.Targets = append(p.Targets, t)
+				}
+			}
+		}
+		out = append(out, p)
+	}
+	return out
+}
+
 func allPackages(thorough bool) []*pkgSpec {
 	var out []*pkgSpec
 	out = append(out, plainPackages(thorough)...)
@@ -761,6 +844,7 @@ func allPackages(thorough bool) []*pkgSpec {
 	out = append(out, crossPackages()...)
 	out = append(out, givenPackages(thorough)...)
 	out = append(out, rejectedPackage())
+	out = append(out, seqPackages(thorough)...)
 	if thorough {
 		out = append(out, customPackages(thorough)...)
 	}
